@@ -60,6 +60,9 @@ pub struct SrvCase {
     /// the simulated process starts with descriptors 0..2 closed (a daemon): the server's listener,
     /// epoll and connections get numbers from 0
     pub fds_from_zero: bool,
+    /// the application creates the kill-switch eventfd BEFORE the server (with daemon-style numbering
+    /// the server's copy is then descriptor 0)
+    pub kill_first: bool,
 }
 
 impl SStep {
@@ -133,6 +136,7 @@ impl SrvCase {
             }),
             ("kill_after_start", J::Bool(self.kill_after_start)),
             ("fds_from_zero", J::Bool(self.fds_from_zero)),
+            ("kill_first", J::Bool(self.kill_first)),
         ])
     }
     pub fn from_json(j: &J) -> Result<SrvCase, String> {
@@ -155,6 +159,7 @@ impl SrvCase {
             kill_at: j.get("kill_at").and_then(|x| x.int()).map(|k| if k < 0 { usize::MAX } else { k as usize }),
             kill_after_start: j.get("kill_after_start").and_then(|x| x.bool()).unwrap_or(false),
             fds_from_zero: j.get("fds_from_zero").and_then(|x| x.bool()).unwrap_or(false),
+            kill_first: j.get("kill_first").and_then(|x| x.bool()).unwrap_or(false),
         })
     }
 }
@@ -353,21 +358,37 @@ impl ServerSim {
         });
         let prop = flags.prop;
         let built = catch_unwind(AssertUnwindSafe(|| -> Result<(HttpServer, Option<EventFd>), String> {
+            // (server's copy, harness' copy) of the kill switch, possibly created before the server
+            let make = || -> Result<(EventFd, EventFd), String> {
+                let srv = EventFd::new(libc::EFD_NONBLOCK).map_err(|e| e.to_string())?;
+                let mine = srv.try_clone().map_err(|e| e.to_string())?;
+                Ok((srv, mine))
+            };
+            let mut early = None;
+            if case.kill_switch && case.kill_first {
+                early = Some(make()?);
+            }
             let mut server = HttpServer::new(SOCK_PATH).map_err(|e| format!("HttpServer::new: {}", e))?;
             if let Some(l) = case.limit {
                 server.set_payload_max_size(l);
             }
             let mut kill = None;
             if case.kill_switch && !case.kill_after_start {
-                let k = EventFd::new(libc::EFD_NONBLOCK).map_err(|e| e.to_string())?;
-                server.add_kill_switch(k.try_clone().map_err(|e| e.to_string())?).map_err(|e| format!("add_kill_switch: {}", e))?;
-                kill = Some(k);
+                let (srv, mine) = match early.take() {
+                    Some(x) => x,
+                    None => make()?,
+                };
+                server.add_kill_switch(srv).map_err(|e| format!("add_kill_switch: {}", e))?;
+                kill = Some(mine);
             }
             server.start_server().map_err(|e| format!("start_server: {}", e))?;
             if case.kill_switch && case.kill_after_start {
-                let k = EventFd::new(libc::EFD_NONBLOCK).map_err(|e| e.to_string())?;
-                server.add_kill_switch(k.try_clone().map_err(|e| e.to_string())?).map_err(|e| format!("add_kill_switch: {}", e))?;
-                kill = Some(k);
+                let (srv, mine) = match early.take() {
+                    Some(x) => x,
+                    None => make()?,
+                };
+                server.add_kill_switch(srv).map_err(|e| format!("add_kill_switch: {}", e))?;
+                kill = Some(mine);
             }
             Ok((server, kill))
         }));
